@@ -50,6 +50,13 @@ class Run:
         self.exhaustive = None
         self.extra_cov = {}
         self.known = load_known(prop)
+        # stale witnesses of earlier runs must not be mistaken for this run's
+        import glob
+        for f in glob.glob(os.path.join(REPLAY_DIR, "%s-*.json" % prop)):
+            try:
+                os.remove(f)
+            except OSError:
+                pass
         self.known_index = {sig_key(f["signature"]): f for f in self.known}
 
     # -- counting -----------------------------------------------------------------
